@@ -330,6 +330,7 @@ inductive Cond
   | always | alertLenBad | closeNotify | levelWarning | levelError | levelOther
   | ccsBodyBad | handPending | notExpect | notExpectAndHandPending
   | notCompleteOrExpect | dataEmpty | dataEmptyOrExpect
+  | complete                    -- handshakeComplete (false during a handshake)
   | completeAndDwell            -- DTLCP: post-handshake retransmission window (false during a handshake)
   | irrelevant                  -- bookkeeping that does not decide the record's fate
   deriving DecidableEq, Repr
@@ -349,14 +350,14 @@ def conds : List (String × Cond) :=
    ("!expectChangeCipherSpec && c.handBuf.Len() > 0", .notExpectAndHandPending),
    ("!handshakeComplete || expectChangeCipherSpec", .notCompleteOrExpect),
    ("len(data) == 0", .dataEmpty), ("len(data) == 0 || expectChangeCipherSpec", .dataEmptyOrExpect),
+   ("handshakeComplete", .complete),
    ("handshakeComplete && !c.dwellDeadline.IsZero()", .completeAndDwell),
    ("handshakeComplete && !c.dwellDeadline.IsZero() && time.Now().Before(c.dwellDeadline)", .completeAndDwell),
    ("!c.dwellDeadline.IsZero()", .irrelevant), ("c.config != nil && c.config.ReplayWindow > 0", .irrelevant),
    ("len(c.rawInputBuf) > 0", .irrelevant)]
 
 def actions : List (String × Action) :=
-  [("fail:alertUnexpectedMessage", .fail), ("fail:alertDecodeError", .fail), ("fail", .fail),
-   ("retry", .retry), ("eof", .eof), ("remote", .remote), ("change", .change), ("input", .input),
+  [("fail", .fail), ("retry", .retry), ("eof", .eof), ("remote", .remote), ("change", .change), ("input", .input),
    ("hand", .hand), ("defer", .defer), ("retransmit", .skip), ("continue", .skip), ("other", .skip),
    ("return", .skip), ("expect=false", .skip)]
 
@@ -364,12 +365,12 @@ abbrev Row := RecType × Cond × Action
 
 def lookup {α : Type} (t : List (String × α)) (s : String) : Option α := (t.find? (fun p => p.1 == s)).map (·.2)
 
-def compileRow (r : String × String × String) : Option Row :=
-  match lookup recTypes r.1, lookup conds r.2.1, lookup actions r.2.2 with
+def compileRow (r : String × String × String × String) : Option Row :=
+  match lookup recTypes r.1, lookup conds r.2.1, lookup actions r.2.2.1 with
   | some t, some c, some a => some (t, c, a)
   | _, _, _ => none
 
-def compileTable : List (String × String × String) → Option (List Row)
+def compileTable : List (String × String × String × String) → Option (List Row)
   | [] => some []
   | r :: rs =>
     match compileRow r, compileTable rs with
@@ -405,6 +406,7 @@ def evalCond (r : Rec) (expect : Bool) : Cond → Bool
   | .notCompleteOrExpect => true
   | .dataEmpty => r.empty
   | .dataEmptyOrExpect => r.empty || expect
+  | .complete => false
   | .completeAndDwell => false
   | .irrelevant => false
 
@@ -596,7 +598,7 @@ def start (cfg : Cfg) (P : Prog) : Option Q :=
 
 structure Skeleton where
   flows : RawFlows
-  table : List (String × String × String)
+  table : List (String × String × String × String)
   pre : List (String × String)
   retryIncrementsFirst : Bool
   retryLimitCond : String
